@@ -48,6 +48,7 @@ type Cmd struct {
 	SkipB  []bool   `json:"skipb,omitempty"`      // corrupt: inputs not to run through UnmarshalBebop
 	SkipS  []bool   `json:"skips,omitempty"`      // corrupt: inputs not to run through DecodeBebop
 	Alt    []int    `json:"alt,omitempty"`        // codec: the reference encoding of another value of the same schema
+	Ctx    string   `json:"ctx,omitempty"`        // decref (C04): the context of the evolved message
 	Big    bool     `json:"bigpayload,omitempty"` // stream: also with the first string / byte array stretched beyond buffer sizes
 }
 
@@ -741,6 +742,9 @@ func runCmd(c *Cmd) {
 			}
 			emit(e)
 		}
+		if c.Ctx != "" {
+			opPadded(pi, c, ref)
+		}
 	case "stream":
 		opStream(pi, c)
 	case "evolve":
@@ -867,4 +871,110 @@ func shiftDates(v reflect.Value, ns int) int {
 		}
 	}
 	return n
+}
+
+// padUnknown returns ref with one more field in the message that starts at off: index 200 (unknown to every schema of
+// the universe and higher than all of theirs), a byte array of n bytes - what a still newer peer with
+// "200 -> byte[] blob" would send. The length prefixes at outer (enclosing message / union bodies) grow with it.
+func padUnknown(ref []byte, off int, outer []int, n int) []byte {
+	le := func(b []byte) int { return int(b[0]) | int(b[1])<<8 | int(b[2])<<16 | int(b[3])<<24 }
+	put := func(b []byte, v int) { b[0], b[1], b[2], b[3] = byte(v), byte(v>>8), byte(v>>16), byte(v>>24) }
+	if off+4 > len(ref) {
+		return nil
+	}
+	end := off + 4 + le(ref[off:])
+	if end > len(ref) || end-1 < off+4 || ref[end-1] != 0 {
+		return nil
+	}
+	field := make([]byte, 5+n)
+	field[0] = 200
+	put(field[1:], n)
+	for i := 5; i < len(field); i++ {
+		field[i] = 0xAB
+	}
+	out := append(append(append([]byte{}, ref[:end-1]...), field...), ref[end-1:]...)
+	put(out[off:], le(ref[off:])+len(field))
+	for _, o := range outer {
+		put(out[o:], le(ref[o:])+len(field))
+	}
+	return out
+}
+
+// opPadded (C04): the evolved message carries, besides what the newer schema of the pair adds, an unknown field that is
+// larger than any buffer a decoder is likely to use. DecodeBebop must skip it: same value as without it, all consumed,
+// and what follows the message in its container intact.
+func opPadded(pi *pkgInfo, c *Cmd, ref []byte) {
+	has := func(p string) bool { return strings.HasPrefix(c.Ctx, p) }
+	le := func(b []byte) int { return int(b[0]) | int(b[1])<<8 | int(b[2])<<16 | int(b[3])<<24 }
+	var padded func(n int) []byte
+	switch {
+	case has("top"):
+		padded = func(n int) []byte { return padUnknown(ref, 0, nil, n) }
+	case has("msgfield"), has("unionbranch"):
+		if len(ref) < 6 || ref[4] != 1 {
+			return
+		}
+		padded = func(n int) []byte { return padUnknown(ref, 5, []int{0}, n) }
+	case has("structfield"):
+		padded = func(n int) []byte { return padUnknown(ref, 1, nil, n) }
+	case has("array"):
+		if len(ref) < 4 || le(ref) == 0 {
+			return
+		}
+		padded = func(n int) []byte { return padUnknown(ref, 4, nil, n) }
+	case has("mapvalue"):
+		if len(ref) < 4 || le(ref) == 0 {
+			return
+		}
+		padded = func(n int) []byte { return padUnknown(ref, 8, nil, n) }
+	default:
+		return
+	}
+	plain := newRecord(pi.Pid, c.Root)
+	if r0, _, _, _ := call(len(ref), func() error { return plain.DecodeBebop(bytes.NewReader(ref)) }); r0 != "nil" {
+		return // (judged by the events above)
+	}
+	want, err := liftRecord(pi, c.Root, plain)
+	if err != nil {
+		return
+	}
+	wantJ, _ := json.Marshal(want)
+	m := 20
+	for _, n := range []int{100, 4097, 70001} {
+		in := padded(n)
+		if in == nil {
+			return
+		}
+		for _, style := range []string{"as much as asked", "bytes.Reader", "7,2 bytes per Read"} {
+			begin(c.Cid, m, &Event{Ev: "padded", API: "DecodeBebop", K: ip(n), Style: style})
+			e := &Event{Ev: "padded", Cid: c.Cid, M: m, API: "DecodeBebop", K: ip(n), Style: style, N: ip(len(in))}
+			data := append(append([]byte{}, in...), trailer...)
+			var r io.Reader
+			var pos func() int
+			switch style {
+			case "bytes.Reader":
+				br := bytes.NewReader(data)
+				r, pos = br, func() int { return len(data) - br.Len() }
+			case "7,2 bytes per Read":
+				sr := &schedReader{data: data, pattern: []int{7, 2}}
+				r, pos = sr, func() int { return sr.pos }
+			default:
+				pr := &posReader{data: data}
+				r, pos = pr, func() int { return pr.pos }
+			}
+			got := newRecord(pi.Pid, c.Root)
+			e.Res, e.Msg, e.Big, e.Alloc = call(len(data), func() error { return got.DecodeBebop(r) })
+			e.Consumed = ip(pos())
+			same := false
+			if e.Res == "nil" {
+				if v, err := liftRecord(pi, c.Root, got); err == nil {
+					gj, _ := json.Marshal(v)
+					same = bytes.Equal(gj, wantJ)
+				}
+			}
+			e.TailOK = bp(same)
+			emit(e)
+			m++
+		}
+	}
 }
